@@ -58,7 +58,8 @@ def run_real(kinds, stop):
         except CompositeParserException:
             pass
     m.calls = 0
-    res = {"doc": None, "errors": None, "raised": None}
+    id_start = b.id_generator._id_counter     # ids continue from the shared generator (C15: equal up to this offset)
+    res = {"doc": None, "errors": None, "raised": None, "id_start": id_start}
     try:
         res["doc"] = p.parse(sc, m)
     except CompositeParserException as e:
@@ -93,7 +94,7 @@ def compare(kinds, stop):
                 return False
             # the whole AST (nesting, order, canonical ids) equals the one built from the grammar derivation, and so do the pickles
             # compiled from it (source-level check of C06/C07/C08/C10/C11: pickles against what the SOURCE says, not against the AST)
-            want, nxt = specast.build(spec["events"], kinds)
+            want, nxt = specast.build(spec["events"], kinds, real["id_start"])
             if not astgen.same(real["doc"], want):
                 return False
             got_doc = dict(real["doc"])
